@@ -207,6 +207,7 @@ RULES = [
     ("C14-R2", "ladder order: longer suffix is tested before its proper suffixes", r2),
     ("C14-R3", "numeric literal coercion falls back to parse_filesize", r3),
     ("C14-R4", "format_filesize unit / flag tables", r4),
+    ("C02-R1", "`size OP literal` is the numeric comparison [shared with C02]", lambda ctx: __import__("c02").r1(ctx)),
 ]
 
 EXPLANATION = (
